@@ -86,7 +86,7 @@ def run(ctx):
         samples.append(r)
         ctx.count(core.digest([kind, r["f"]]))
 
-    addrs = [b"", b"1", b"1234567", bytes(rng.getrandbits(8) for _ in range(255))]
+    addrs = [b"", b"1", b"1234567", bytes(rng.getrandbits(8) for _ in range(255)), b"\x00", bytes(4), b"\xff" * 3, b" 12 "]
     # UCS-2 texts: empty, ASCII, long, and code units whose low / high octets sit at the extremes (0x00, 0x7F, 0x80, 0xFF) in first,
     # middle and last position
     texts = ["", "A", "x" * 100, "žluťoučký kůň " * 10, "中" * 200, "Übung", "é", "Αθήνα", "\u0080\u00ff\u0100\u7fff\u8000\uffff",
